@@ -14,6 +14,7 @@ RULE = (
     "public output is compared with the direct convolution of the same kernels with the analytic PDF (no basis code). "
     "rtol by order 1e-12/1e-7/1e-5/3e-4 on sum|terms|. Distinct = (kind, heavyness, process, scheme, order, x class, oracle); "
     "non-trivial = a non-zero expected entry was compared."
+    " A probe on Runner.replace_nans_with_0 counts the entries the runner hands over as 0 after a non-finite convolution (each one is an entry that is not the convolution). NLO rtol 1e-6 since the thorough sweeps (QUADPACK's heuristic error next to end-point singularities), plus 5e-9/(1-xi) for the documented 1e-10 border cut."
 )
 ASSUMPTIONS = [
     "eko BasisFunction.evaluate_x and scipy.integrate.quad are trusted",
